@@ -10,7 +10,7 @@ RULE = ("adapter flavour: the wrapped io.ReadWriter returns scripted (count, err
         "Write/WriteAll; random long scripts (sizes to 70000, up to 12 segments) with reads and writes in flight together. "
         "file flavour (real TCP, sonic.Dial): the peer writes the scripted segments between polls (would-block in the middle "
         "of ReadAll), half-closes at every cut; ReadAll up to 200000 bytes in <= 30000-byte segments; WriteAll up to 6 MiB "
-        "against a peer that drains slowly (kernel-chosen partial writes). Stream bytes come from a position-dependent "
+        "against a peer that drains slowly, and WriteAll of 70 KB..2.5 MB with a 16 KiB send buffer (many kernel-chosen partial writes, short writes on calls the poller resumed). Stream bytes come from a position-dependent "
         "generator; buffers carry sentinels behind the requested length. distinct = (unread count, eof, remaining scripts, "
         "in-flight progress) model states; non-trivial = an operation in flight has moved some but not all bytes")
 EXHAUSTIVE = {"quick": False, "thorough": False}
